@@ -112,6 +112,41 @@ func driveC12(args []string) error {
 			}
 		}
 	}
+	// thin and wide shapes (round 9): both aspect ratios tiny (or huge) and different by a factor, although their
+	// difference is small in absolute terms (an aspect test with an absolute epsilon takes them for equal)
+	for _, vw := range []int{1, 2, 3} {
+		for _, vh := range []int{8192, 12000, 16384} {
+			for _, dx := range []int{1, 2, 3, 5} {
+				for _, dy := range []int{8192, 10000, 16384} {
+					for _, tr := range []bool{false, true} {
+						for _, ax := range as {
+							for _, ay := range as {
+								q := [4]int{vw, vh, dx, dy}
+								if tr {
+									q = [4]int{vh, vw, dy, dx}
+								}
+								vb4 := [4]int{0, 0, q[0], q[1]}
+								vb := ivg.ViewBox{MinX: 0, MinY: 0, MaxX: float32(q[0]), MaxY: float32(q[1])}
+								fdx, fdy := float32(q[2]), float32(q[3])
+								for _, kind := range []string{"meet", "slice"} {
+									var a, b, cc, d float32
+									if kind == "meet" {
+										a, b, cc, d = vb.AspectMeet(fdx, fdy, float32(ax)/4, float32(ay)/4)
+									} else {
+										a, b, cc, d = vb.AspectSlice(fdx, fdy, float32(ax)/4, float32(ay)/4)
+									}
+									sh.Next().Emit(fitEv{Ev: "fit", Kind: kind, Vb4: vb4, E1: 2, D4: [2]int{q[2], q[3]}, E2: 2, A4: [2]int{ax, ay},
+										Vb: fs(0, 0, vb.MaxX, vb.MaxY), D: fs(fdx, fdy), A: fs(float32(ax)/4, float32(ay)/4), Got: fs(a, b, cc, d)})
+									stats["fit"]++
+									stats["thin_or_wide"]++
+								}
+							}
+						}
+					}
+				}
+			}
+		}
+	}
 	// the target equal to the viewBox's Max corner (not its size) for viewBoxes that do not start at the origin
 	for _, q := range [][4]int{{-16, 0, 48, 48}, {-32, -32, 32, 32}, {8, 4, 40, 24}, {-8, -24, 24, 24}, {4, 0, 12, 36}, {0, -10, 30, 20}} {
 		for _, ax := range as {
